@@ -55,10 +55,13 @@ AbsLt(f, x, d) == DLt(DAbs(Val(f, x)), d)            \* |x| < d, x finite
 Sq4Lt(f, x) == LET v == Val(f, x) IN DLt(DShl(DMul(v, v), 2), LargestD(f))   \* 4 x^2 < largest
 
 \* Dist(r, RN(d)) <= k, r finite
-Within(f, r, d, k) == IsFinite(f, r) /\ NCmp(Dist(f, r, RN(f, d)), NFromInt(k)) <= 0
+\* (rn = RN(f, d) is passed separately where a caller has it already; r = rn is decided first: cheap)
+WithinR(f, r, rn, k) == r = rn \/ (IsFinite(f, r) /\ NCmp(Dist(f, r, rn), NFromInt(k)) <= 0)
+Within(f, r, d, k) == WithinR(f, r, RN(f, d), k)
 \* the lattice distance as a small integer capped at 9 (for notes), 99 if r is not finite
-DistCap(f, r, d) == IF ~IsFinite(f, r) THEN 99
-                    ELSE LET n == Dist(f, r, RN(f, d)) IN IF NCmp(n, <<9>>) >= 0 THEN 9 ELSE NToInt(n)
+DistCapR(f, r, rn) == IF r = rn THEN 0 ELSE IF ~IsFinite(f, r) THEN 99
+                      ELSE LET n == Dist(f, r, rn) IN IF NCmp(n, <<9>>) >= 0 THEN 9 ELSE NToInt(n)
+DistCap(f, r, d) == DistCapR(f, r, RN(f, d))
 
 AllFinite(f, s) == \A i \in 1..Len(s) : IsFinite(f, s[i])
 
@@ -67,6 +70,8 @@ NextDomain(f, x, up) == /\ IsNormal(f, x)
                         /\ IsNormal(f, IF up THEN NextUp(f, x) ELSE NextDown(f, x))
 NextFails(f, x, up, r) ==
   IF NextDomain(f, x, up) /\ r # (IF up THEN NextUp(f, x) ELSE NextDown(f, x)) THEN {"next"} ELSE {}
+\* the same with dom = NextDomain(f, x, up) and nb = the neighbour evaluated by the caller (once per x)
+NextFailsC(dom, nb, r) == IF dom /\ r # nb THEN {"next"} ELSE {}
 
 (* is_power_of_two: documented exponent window, by format *)
 PowHi(f) == f.emax + 2 - f.p                         \* 6, 105, 972 for float16/32/64
@@ -78,8 +83,10 @@ Pow2Domain(f, x) == InWindow(f, x, PowLo(f), PowHi(f))
 \* r: the BOOLEAN the code returned; inv: the invert argument
 Pow2Fails(f, x, inv, r) ==
   IF Pow2Domain(f, x) /\ r # (SigIsPow2(f, x) # inv) THEN {"pow2"} ELSE {}
-Pow2BelowDoc(f, x, inv, r) ==                        \* L2: noted only
-  ~Pow2Domain(f, x) /\ InWindow(f, x, QMin(f), PowHi(f)) /\ r # (SigIsPow2(f, x) # inv)
+\* the same with dom = Pow2Domain(f, x) and isp = SigIsPow2(f, x) evaluated by the caller (once per x)
+Pow2FailsC(dom, isp, inv, r) == IF dom /\ r # (isp # inv) THEN {"pow2"} ELSE {}
+\* L2: below the documented window of float32 but inside the window the repository's test uses
+Pow2BelowDoc(f, x) == f = F32 /\ ~Pow2Domain(f, x) /\ InWindow(f, x, QMin(f), PowHi(f))
 
 (* sums *)
 QuarterDomain(f, s) == AllFinite(f, s) /\ \A i \in 1..Len(s) : AbsLt(f, s[i], DShl(LargestD(f), -2))
@@ -116,7 +123,7 @@ NearOverflow(f, x, y, z) ==                           \* L3
 \* rn = RN(f, FMAExact(f, x, y, z)) are passed in so that a caller judging many variants on the
 \* same operands evaluates them once
 FmaFailsC(f, x, y, z, dom, rn, r, fo) ==
-  IF ~dom \/ (IsFinite(f, r) /\ NCmp(Dist(f, r, rn), NOne) <= 0) THEN {}
+  IF ~dom \/ WithinR(f, r, rn, 1) THEN {}
   ELSE IF ~fo /\ ~IsFinite(f, r) /\ NearOverflow(f, x, y, z) THEN {}
   ELSE IF ProdTop(f, x, y) THEN {"fma_1ulp_prodtop"}
   ELSE IF ResTop(f, x, y, z) THEN {"fma_1ulp_restop"} ELSE {"fma_1ulp"}
@@ -139,15 +146,14 @@ NearTie(f, d) ==
 \* cancellation: the exact result is at least p binades below the largest term
 Cancels(f, d, terms) ==
   ~DIsZero(d) /\ \E i \in 1..Len(terms) : ~DIsZero(terms[i]) /\ DLead(terms[i]) - DLead(d) >= f.p
-ResClass(f, d, terms) ==
-  LET rn == RN(f, d)
-  IN  (IF DIsZero(d) THEN {"zero"} ELSE {})
+ResClass(f, d, rn, terms) ==
+      (IF DIsZero(d) THEN {"zero"} ELSE {})
       \cup (IF IsTie(f, d) THEN {"tie"} ELSE {})
       \cup (IF NearTie(f, d) THEN {"neartie"} ELSE {})
       \cup (IF Cancels(f, d, terms) THEN {"cancel"} ELSE {})
       \cup (IF IsSubnormal(f, rn) THEN {"subres"} ELSE {})
       \cup (IF ~IsZero(f, rn) /\ IsFinite(f, rn) /\ NIsPow2(Sig(f, rn)) THEN {"pow2res"} ELSE {})
-      \cup (IF Representable(f, d) THEN {"exact"} ELSE {})
+      \cup (IF DIsZero(d) \/ (IsFinite(f, rn) /\ DEq(Val(f, rn), d)) THEN {"exact"} ELSE {})
 
 (*************************** part 2: total arithmetic **********************)
 QNaN(f) == NAdd(InfMag(f), NPow2(f.p - 2))
